@@ -1,3 +1,149 @@
-import Banyan.Model.C04
+/-
+C04 — A crash at any point recovers to a consistent durable prefix.
+
+Theorems about the models `Banyan/Model/FS.lean` (file system with volatile/durable views, `kill -9` and
+power-loss crash relations) and `Banyan/Model/C04.lean` (system-call order of `WriteAtomic`, `flushPart`,
+`mergeParts`, `persistSnapshot`, `gc.clean`, part removal; the startup recovery `initTSTable`).
+The correspondence of those models with the Go code is checked by `checks/C04.py` (trace tie, recovery tie).
+-/
+import Banyan.Lemmas.C04Inv12
+import Banyan.Lemmas.C04Atomic
+import Banyan.Lemmas.C04RecSpec
+
 namespace Banyan.C04
+open Banyan.FS
+
+/-! ## 1. `WriteAtomic` is atomic and durable (see `Lemmas/C04Atomic.lean`)
+
+`writeAtomic_atomic`, `writeAtomic_durable` are re-exported from there. -/
+
+/-! ## 2. `recovery_spec` (see `Lemmas/C04Recover.lean`) -/
+
+/-! ## 3. every crash of every history recovers -/
+
+/-- the state after the history `os` and the first `k` system calls of one more operation `o` -/
+def cutState (e : Nat) (os : List Op) (o : Op) (k : Nat) : St :=
+  run (run ({} : St) (histSteps { epoch := e } os)) (((opSteps (histTbl { epoch := e } os) o).1).take k)
+
+/-- every cut point of the concatenated step list of a history is such a state -/
+theorem cut_decomposition (e : Nat) (os : List Op) (o : Op) (k : Nat)
+    (hk : k ≤ ((opSteps (histTbl { epoch := e } os) o).1).length) :
+    cutState e os o k =
+      run ({} : St) ((histSteps { epoch := e } os ++ (opSteps (histTbl { epoch := e } os) o).1).take
+        ((histSteps { epoch := e } os).length + k)) := by
+  unfold cutState
+  rw [List.take_append, List.take_of_length_le (Nat.le_add_right _ _), run_append]
+  simp
+
+/-- What startup delivers after a crash: it opens; every served part is complete (all eight files with their
+    full content, covering exactly the batches its `metadata.json` names); nothing but the loaded manifest and
+    the served parts' files is left in the directory (`leftovers_removed`); and the served snapshot is the set
+    of valid parts listed by a manifest. -/
+structure RecoversOK (t : Tree) : Prop where
+  opens : ∃ r, recover t = .ok r ∧ PartsComplete r ∧ ∃ live, NoLeftovers live r ∧ (r.parts ≠ [] → r.epoch = live)
+
+theorem recoversOK_of_inv {G : Ghost} {s : St} (h : Inv G s) {m : NS Name} {data : Nat → Content}
+    (hN : NSOK G m) (hd : DataOK s data) : RecoversOK (resolve m data) := by
+  rcases treeOK_of_nsok h.gwf hN h.stable hd with ⟨ms, _, _, _, hT⟩ | ⟨_, _, hT0⟩
+  · obtain ⟨r, hr, hparts, hep, hc, hl⟩ := recover_treeOK hT
+    refine ⟨r, hr, hc, some ms.epoch, hl, ?_⟩
+    intro hne
+    rw [hep]
+    by_cases hem : (served (resolve m data) ms.ids).isEmpty = true
+    · exfalso; apply hne; rw [hparts, List.isEmpty_iff.1 hem]; rfl
+    · simp [hem]
+  · obtain ⟨r, hr, hparts, hep, hl⟩ := recover_treeOK0 hT0
+    exact ⟨r, hr, by intro p hp; rw [hparts] at hp; simp at hp, none, hl, fun hne => absurd hparts hne⟩
+
+/-- **kill -9** at any cut point of any history: startup recovers. -/
+theorem crash_recovers_kill (e : Nat) (os : List Op) (o : Op) (k : Nat) :
+    RecoversOK (crashKill (cutState e os o k)) := by
+  obtain ⟨G, h⟩ := inv_at_cut e os o k
+  obtain ⟨m, data, ht, hN, hd⟩ := inv_crashKill h
+  rw [show crashKill (cutState e os o k) = resolve m data from ht]
+  exact recoversOK_of_inv h hN hd
+
+/-- **power loss** at any cut point of any history, whatever subset of the un-fsynced directory operations
+    and whatever admissible file data survive: startup recovers. -/
+theorem crash_recovers_power (e : Nat) (os : List Op) (o : Op) (k : Nat) (t : Tree)
+    (hc : crashPower (cutState e os o k) t) : RecoversOK t := by
+  obtain ⟨G, h⟩ := inv_at_cut e os o k
+  obtain ⟨m, data, ht, hN, hd⟩ := inv_crashPower h t hc
+  rw [ht]
+  exact recoversOK_of_inv h hN hd
+
+/-- both crash models at once (the proved part of `crash_recovers_prefix`) -/
+theorem crash_recovers_prefix_partial (e : Nat) (os : List Op) (o : Op) (k : Nat) (t : Tree)
+    (hc : t = crashKill (cutState e os o k) ∨ crashPower (cutState e os o k) t) : RecoversOK t := by
+  rcases hc with rfl | hc
+  · exact crash_recovers_kill e os o k
+  · exact crash_recovers_power e os o k t hc
+
+/-- the batches acknowledged before the crash -/
+def ackedAt (e : Nat) (os : List Op) : List Nat := (histTbl { epoch := e } os).acked
+
+/-- the batches covered by file parts of a table state (what its last publication covers) -/
+def coveredBy (tb : Tbl) : List Nat := (tb.parts.filter (fun p => !p.mem)).flatMap (·.batches)
+
+/-- has the manifest publication of this step prefix completed (rename followed by the root fsync)? -/
+def pubDone : List Step → Bool
+  | [] => false
+  | .rename [.tmp (.snp _)] [.snp _] :: rest => rest.contains (.fsyncdir []) || pubDone rest
+  | _ :: rest => pubDone rest
+
+/-- The full statement of the property on the model: in addition to `RecoversOK`, the batches served are a
+    prefix of the acknowledged batches and contain every batch covered by the last durably published
+    manifest.  (Not proved here — see `checks/C04.design.md`: established on the implementation's and the
+    model's recovery results by the check's oracle for every generated crash state.) -/
+def crash_recovers_prefix_Statement : Prop :=
+  ∀ (e : Nat) (os : List Op) (o : Op) (k : Nat) (t : Tree),
+    (t = crashKill (cutState e os o k) ∨ crashPower (cutState e os o k) t) →
+    ∃ r, recover t = .ok r ∧ PartsComplete r ∧
+      (∃ j, List.Perm (r.parts.flatMap (·.2)) ((ackedAt e os).take j)) ∧
+      (∀ b ∈ coveredBy (histTbl { epoch := e } os), b ∈ r.parts.flatMap (·.2)) ∧
+      (pubDone (((opSteps (histTbl { epoch := e } os) o).1).take k) = true →
+        ∀ b ∈ coveredBy (opSteps (histTbl { epoch := e } os) o).2, b ∈ r.parts.flatMap (·.2))
+
+/-! ### non-vacuity: a concrete history, a concrete cut, a concrete power-loss outcome -/
+
+/-- the durable tree itself (no pending operation survives, durable data) is a power-loss outcome -/
+theorem crashPower_durable (s : St) (hp : ∀ i, s.ddataOf i <+: s.vdataOf i) :
+    crashPower s (resolve s.dur s.ddataOf) :=
+  ⟨[], s.ddataOf, List.nil_sublist _, fun i => ⟨List.prefix_refl _, hp i⟩, rfl⟩
+
+example : RecoversOK (resolve (cutState 256 [.batch 1, .flush, .batch 2] .flush 30).dur
+    (cutState 256 [.batch 1, .flush, .batch 2] .flush 30).ddataOf) := by
+  obtain ⟨G, h⟩ := inv_at_cut 256 [.batch 1, .flush, .batch 2] .flush 30
+  exact crash_recovers_power 256 _ _ 30 _ (crashPower_durable _ h.dataPrefix)
+
+/-! ## 4. the function as written leaves leftovers (finding F14) -/
+
+/-- a crash between `rename(<epoch>.snp.tmp, <epoch>.snp)` and `gc.clean`: `initTSTable` as written keeps the
+    older manifest for ever; the repaired function removes it. -/
+def legacyTree : Tree :=
+  [([.snp 1], .file (encList [1])), ([.snp 2], .file (encList [1])), ([.part 1], .dir)] ++
+    [PFile.mt, .primary, .timestamps, .fv, .tf, .tfm, .tagType, .metadata].map
+      (fun f => (pfile 1 f, TNode.file (fileContent f [7])))
+
+theorem recoverLegacy_leaves_stale_manifest :
+    (match recoverLegacy legacyTree with
+      | .ok r => exists_ r.tree [.snp 1] && exists_ r.tree [.snp 2]
+      | .panic _ => false) = true := by decide
+
+theorem recover_removes_stale_manifest :
+    (match recover legacyTree with
+      | .ok r => !exists_ r.tree [.snp 1] && exists_ r.tree [.snp 2] && r.parts == [(1, [7])]
+      | .panic _ => false) = true := by decide
+
+/-- a crash before the rename leaves `<epoch>.snp.tmp`, which `initTSTable` as written never removes -/
+theorem recoverLegacy_leaves_tmp_manifest :
+    (match recoverLegacy (([.tmp (.snp 3)], .file [2]) :: legacyTree) with
+      | .ok r => exists_ r.tree [.tmp (.snp 3)]
+      | .panic _ => false) = true := by decide
+
+theorem recover_removes_tmp_manifest :
+    (match recover (([.tmp (.snp 3)], .file [2]) :: legacyTree) with
+      | .ok r => !exists_ r.tree [.tmp (.snp 3)] && r.parts == [(1, [7])]
+      | .panic _ => false) = true := by decide
+
 end Banyan.C04
